@@ -145,7 +145,8 @@ def _unify(pat, tgt, env: dict, rest: list) -> bool:
 
 def _parse_fragment(src: str):
     src = textwrap.dedent(src).strip()
-    for attempt in (src, re.sub(r"; ", "\n", src)):
+    # a fragment that only parses in parentheses (a bare `a := b`) is an expression quoted from inside brackets
+    for attempt in (src, re.sub(r"; ", "\n", src), f"({src})" if "\n" not in src else src):
         try:
             body = ast.parse(attempt).body
             if len(body) == 1 and isinstance(body[0], ast.Expr):
@@ -480,6 +481,83 @@ def variants(rule: Rule) -> list[Rule]:
     return out
 
 
+# ------------------------------------------------------------------ compound operands
+# "every operand position filled by an arbitrary typed, pure expression": the same idiom with one operand
+# written as a compound expression of the same type.  Forms are chosen by how loosely they bind
+# (conditional < or < and < not < comparison < + < unary < call), since advice that is assembled as text
+# goes wrong exactly where an operand binds more loosely than the place it is pasted into.
+_BOOLISH = {"int", "nat", "bool", "float", "str", "list_int", "tuple_int", "set_int", "dict_str_int", "list_str", "bytes"}
+_COMPOUND_FORMS = {
+    "cond": ("({p} if c_ else {p}2)", {"c_": "bool"}),
+    "or": ("({p} or {p}2)", {}),
+    "and": ("({p} and {p}2)", {}),
+    "walrus": ("(w_ := {p})", {}),
+}
+_COMPOUND_EXTRA = {
+    "int": {"plus": "({p} + {p}2)", "neg": "(-{p})", "cmp": None}, "nat": {"plus": "({p} + {p}2)"}, "float": {"plus": "({p} + {p}2)", "neg": "(-{p})"},
+    "bool": {"not": "(not {p})", "cmp": "({p} == {p}2)", "in": "({p} in ({p}2,))"}, "str": {"plus": "({p} + {p}2)", "mod": "('%s' % {p})"},
+    "list_int": {"plus": "({p} + {p}2)", "star": "[*{p}]"}, "tuple_int": {"plus": "({p} + {p}2)"}, "set_int": {"bitor": "({p} | {p}2)"},
+    "list_str": {"plus": "({p} + {p}2)"}, "bytes": {"plus": "({p} + {p}2)"},
+}
+
+
+COMPOUND_INFO: dict[int, tuple] = {}
+
+
+def intended_replacement(base_rhs: str, base: Rule, p: str, sub_src: str) -> str | None:
+    """The base idiom's replacement with operand p replaced, as a tree, by the compound expression: what the
+    advice means.  The text refurb prints for the compound instance has to denote this program."""
+    try:
+        tree = ast.parse(textwrap.dedent(base_rhs))
+        sub = ast.parse(sub_src, mode="eval").body
+    except SyntaxError:
+        return None
+
+    class Put(ast.NodeTransformer):
+        def visit_Name(self, n):
+            return copy.deepcopy(sub) if n.id == p and isinstance(n.ctx, ast.Load) else n
+    return ast.unparse(ast.fix_missing_locations(Put().visit(tree)))
+
+
+def compound_variants(rule: Rule) -> list[Rule]:
+    if rule.rhs is not None or rule.annot or rule.fs:
+        return []
+    try:
+        tree = ast.parse(textwrap.dedent(rule.lhs))
+    except SyntaxError:
+        return []
+    stored = {n.id for n in ast.walk(tree) if isinstance(n, ast.Name) and not isinstance(n.ctx, ast.Load)}
+    out = []
+    for p, tag in rule.params.items():
+        if p in stored or tag not in _BOOLISH or (p + "2") in rule.params:
+            continue
+        forms = {k: v for k, v in _COMPOUND_FORMS.items()}
+        for k, v in _COMPOUND_EXTRA.get(tag, {}).items():
+            if v:
+                forms[k] = (v, {})
+        for fname, (tpl, extra) in forms.items():
+            src = tpl.format(p=p)
+            sub = ast.parse(src, mode="eval").body
+
+            class Put(ast.NodeTransformer):
+                def visit_Name(self, n):
+                    return copy.deepcopy(sub) if n.id == p and isinstance(n.ctx, ast.Load) else n
+            t2 = ast.fix_missing_locations(Put().visit(copy.deepcopy(tree)))
+            try:
+                txt = ast.unparse(t2)
+                compile(txt, "v", "exec")
+            except Exception:  # noqa: BLE001
+                continue
+            ps = dict(rule.params)
+            if "{p}2" in tpl:
+                ps[p + "2"] = tag
+            ps.update(extra)
+            v = Rule(rule.code, txt, ps, mode=rule.mode, setup=rule.setup, cls=rule.cls, note=f"compound:{fname}:{p} in `{rule.lhs}`")
+            COMPOUND_INFO[id(v)] = (rule, p, src)
+            out.append(v)
+    return out
+
+
 # ------------------------------------------------------------------ model tie (Lib/PyEval.v, Lib/PyRules.v)
 # (code, original) -> (model original, model replacement, the replacement refurb must print for the
 # model replacement to be the right one, result kind).  Operand order = order of the rule's params.
@@ -764,6 +842,7 @@ def run(ctx: Ctx) -> None:
     from refurb.settings import Settings
     rng = ctx.rng
     base_n = len(RULES)
+    base_index = {id(r): i for i, r in enumerate(RULES)}
     ALL = list(RULES)
     for r in RULES:
         ALL += variants(r)
@@ -785,6 +864,16 @@ def run(ctx: Ctx) -> None:
                 if k not in seen_t:
                     seen_t.add(k)
                     ALL.append(Rule(r.code, r.lhs, ps, mode=r.mode, setup=r.setup, cls=r.cls, note=f"`{r.lhs}` with {pname}: {alt}"))
+    seen_c = {(r.code, norm(r.lhs)) for r in ALL}
+    n_compound = 0
+    for r in RULES:
+        for v in compound_variants(r):
+            k = (v.code, norm(v.lhs))
+            if k not in seen_c:
+                seen_c.add(k)
+                ALL.append(v)
+                n_compound += 1
+    ctx.count("compound-operand-instances", n_compound)
     have = {(r.code, norm(r.lhs), tuple(r.params.values())) for r in ALL}
     for r in OPTIONAL_RULES:
         if (r.code, norm(r.lhs), tuple(r.params.values())) not in have:
@@ -844,6 +933,18 @@ def run(ctx: Ctx) -> None:
                 ctx.report(f"invalid-python:FURB{r.code}", f"FURB{r.code}: the proposed replacement `{rhs[11:]}` for `{r.lhs}` is not valid Python",
                            {"original": r.lhs, "replacement": rhs[11:], "message": msg})
                 continue
+            if id(r) in COMPOUND_INFO:
+                base_rule, p_, sub_src = COMPOUND_INFO[id(r)]
+                bi = base_index.get(id(base_rule))
+                if bi is None or bi not in derived:
+                    ctx.count("compound:base-underivable")
+                    continue
+                want = intended_replacement(derived[bi][1], base_rule, p_, sub_src)
+                if want is None or norm(want) == norm(rhs):
+                    ctx.count("compound:same-tree-as-intended")       # nothing beyond the base idiom, which is executed on its own
+                    continue
+                ctx.count("compound:tree-differs-from-intended")
+                intended_txt = want
             if r.code in DOC_EXCLUSIONS and DOC_EXCLUSIONS[r.code] in " ".join(docs.get(r.code, "").split()):
                 ctx.count("documented-heuristic")
                 continue
@@ -869,8 +970,9 @@ def run(ctx: Ctx) -> None:
                     if isinstance(n, ast.withitem) and n.optional_vars is not None:
                         bound_only |= {x.id for x in ast.walk(n.optional_vars) if isinstance(x, ast.Name)}
             combos = list(itertools.product(*[VALUES[t] for t in r.params.values()])) or [()]
-            if len(combos) > ctx.budget(700, 6000):
-                combos = rng.sample(combos, ctx.budget(700, 6000))
+            cap = ctx.budget(60, 600) if r.note.startswith("compound:") else ctx.budget(700, 6000)
+            if len(combos) > cap:
+                combos = rng.sample(combos, cap)
             reported: set[str] = set()
             pending_raises: list = []
             n_original_ok = 0
@@ -907,6 +1009,8 @@ def run(ctx: Ctx) -> None:
                                 continue
                             swapped_reported.add((r.code, r.lhs, cause))
                             inst = f"{r.lhs}[other-operand-types]"
+                        elif r.note.startswith("compound:"):
+                            continue
                         pending_raises.append((f"semantics:FURB{r.code}:{inst}:{cause}", f"FURB{r.code}: `{r.lhs}` -> `{rhs}` differ on {', '.join(f'{k}={v!r}' for k, v in args.items())}: "
                                                f"the original raises {a['result'][1]}, the replacement returns {str(c['result'])[:100]}",
                                                {"rule": r.code, "original": r.lhs, "replacement": rhs, "message": msg, "replacement_from": how, "environment": {k: repr(v) for k, v in args.items()},
@@ -933,6 +1037,19 @@ def run(ctx: Ctx) -> None:
                             continue
                         swapped_reported.add((r.code, r.lhs, cause))
                         inst = f"{r.lhs}[other-operand-types]"
+                    elif r.note.startswith("compound:"):
+                        # the idiom with a compound operand: one finding per (idiom, form of the operand)
+                        _, fname, rest_ = r.note.split(":", 2)
+                        base_ = rest_.split(" in `", 1)[1][:-1]
+                        if (r.code, base_, fname) in swapped_reported:
+                            continue
+                        swapped_reported.add((r.code, base_, fname))
+                        ctx.report(f"replacement-misparses:FURB{r.code}:{base_}[{fname}]",
+                                   f"FURB{r.code}: for `{r.lhs}` the message proposes `{rhs}`, which does not parse as the intended `{intended_txt}` (an operand needs parentheses) and "
+                                   f"differs on {', '.join(f'{k}={v!r}' for k, v in args.items())}: {diff[0]}: {str(a[diff[0]])[:100]} vs {str(c[diff[0]])[:100]}",
+                                   {"rule": r.code, "original": r.lhs, "replacement": rhs, "intended": intended_txt, "message": msg, "environment": {k: repr(v) for k, v in args.items()},
+                                    "original_outcome": {k: repr(v) for k, v in a.items()}, "replacement_outcome": {k: repr(v) for k, v in c.items()}})
+                        continue
                     ctx.report(f"semantics:FURB{r.code}:{inst}:{cause}", f"FURB{r.code}: `{r.lhs}` -> `{rhs}` differ on {', '.join(f'{k}={v!r}' for k, v in args.items())}: "
                                f"{diff[0]}: {str(a[diff[0]])[:120]} vs {str(c[diff[0]])[:120]}",
                                {"rule": r.code, "original": r.lhs, "replacement": rhs, "message": msg, "replacement_from": how, "environment": {k: repr(v) for k, v in args.items()},
